@@ -90,8 +90,7 @@ def main():
                 d = vlib.first_diff(mt, it)
                 if d:
                     diverge.append((sid, lines, d))
-                o = mod.oracle(lines, it)
-                if o:
+                for o in mod.oracle(lines, it):
                     oracle_fail.append((sid, lines, o[0], o[1]))
                 k = mod.nontrivial(lines, it)
                 if k is not None:
@@ -120,8 +119,7 @@ def main():
                 mm, ii = runner.run([("s", cand)])
             except Exception:
                 return False
-            o = mod.oracle(cand, ii.get("s", []))
-            return bool(o) and o[0] == sig
+            return any(o[0] == sig for o in mod.oracle(cand, ii.get("s", [])))
         return f
 
     seen_sig = set()
@@ -152,9 +150,9 @@ def main():
                     break
                 for sid, lines in sc:
                     evaluations += 1
-                    o = mod.oracle(lines, ii.get(sid, []))
-                    if o and o[0] not in known_sigs:
-                        found = (sid, lines, o)
+                    os_ = [o for o in mod.oracle(lines, ii.get(sid, [])) if o[0] not in known_sigs]
+                    if os_:
+                        found = (sid, lines, os_[0])
                         break
                 if found:
                     break
